@@ -177,7 +177,7 @@ func (e *Env) isMember(p kyber.Point) bool {
 	return r.Equal(e.G.NewPoint().Null())
 }
 
-func runPE(g *groups.Info, bhs [][]peStep, cfg Config, res *core.Result) int {
+func runPE(g *groups.Info, bhs [][]peStep, cfg Config, res *core.Result, chunk, nchunks int) int {
 	env, err := NewEnv(g, Bindings(g, cfg.Seed, 1)[0], res, cfg.Prop)
 	if err != nil {
 		res.Skip("env:" + err.Error())
@@ -199,6 +199,9 @@ func runPE(g *groups.Info, bhs [][]peStep, cfg Config, res *core.Result) int {
 	done := 0
 	vkey := func(op, kind string) string { return fmt.Sprintf("%s/%s/%s/%s", cfg.Prop, g.Name, op, kind) }
 	for j, bh := range bhs {
+		if j%nchunks != chunk {
+			continue
+		}
 		id := fmt.Sprint(j)
 		if cfg.LastOp != "" && bh[len(bh)-1].Op != cfg.LastOp {
 			continue
@@ -432,10 +435,17 @@ func RunPickEmbed(cfg Config, res *core.Result) error {
 		}
 		names = append(names, g.Name)
 	}
+	// behaviours are independent of one another: each group's list is split into chunks so that the slow groups
+	// do not leave the other cores idle at the end
+	const nchunks = 6
 	per := make([]int, len(names))
-	core.Parallel(len(names), runtime.NumCPU(), func(i int) {
-		per[i] = runPE(groups.ByName(names[i]), bhs, cfg, res)
+	part := make([]int, len(names)*nchunks)
+	core.Parallel(len(part), runtime.NumCPU(), func(i int) {
+		part[i] = runPE(groups.ByName(names[i/nchunks]), bhs, cfg, res, i%nchunks, nchunks)
 	})
+	for i, n := range part {
+		per[i/nchunks] += n
+	}
 	m := map[string]int{}
 	total := 0
 	for i, n := range names {
